@@ -193,3 +193,15 @@ mutant("heap_ptr_returns_data", ["C11"], [("src/arc.rs", "        self.p.as_ptr(
 mutant("borrow_arc_stores_block", ["C11", "C01"], [("src/arc.rs", "unsafe { ArcBorrow(NonNull::new_unchecked(self.as_ptr() as *mut T), PhantomData) }", "unsafe { ArcBorrow(NonNull::new_unchecked(self.ptr() as *mut T), PhantomData) }")])
 benign("offsetarc_retarget_api_harmless", [("src/offset_arc.rs", "    /// Clone it as an `Arc`\n    #[inline]\n    pub fn clone_arc(&self) -> Arc<T> {", "    /// Re-point\n    pub fn retarget(&mut self, other: OffsetArc<T>) {\n        let old = core::mem::replace(&mut self.ptr, other.ptr);\n        core::mem::forget(other);\n        drop(OffsetArc { ptr: old, phantom: PhantomData::<T> });\n    }\n\n    /// Clone it as an `Arc`\n    #[inline]\n    pub fn clone_arc(&self) -> Arc<T> {")])
 benign("as_ptr_addr_of_const", [("src/arc.rs", "unsafe { ptr::addr_of_mut!((*self.ptr()).data) }", "unsafe { ptr::addr_of!((*self.ptr()).data) }")])
+
+# ------------------------------------------------------------------ C10
+mutant("into_thin_no_assert", ["C10"], [("src/thin_arc.rs", "        assert_eq!(\n            a.header.length,\n            a.slice.len(),\n            \"Length needs to be correct for ThinArc to work\"\n        );\n        // Safety: invariant checked in assertion above", "        // Safety: invariant checked in assertion above")])
+mutant("into_thin_assert_wrong_things", ["C10"], [("src/thin_arc.rs", "        assert_eq!(\n            a.header.length,\n            a.slice.len(),\n            \"Length needs to be correct for ThinArc to work\"\n        );\n        // Safety: invariant checked in assertion above", "        assert_eq!(\n            a.slice.len(),\n            a.slice.len(),\n            \"Length needs to be correct for ThinArc to work\"\n        );\n        // Safety: invariant checked in assertion above")])
+mutant("into_thin_assert_le", ["C10"], [("src/thin_arc.rs", "        assert_eq!(\n            a.header.length,\n            a.slice.len(),\n            \"Length needs to be correct for ThinArc to work\"\n        );\n        // Safety: invariant checked in assertion above", "        assert!(\n            a.header.length <= a.slice.len(),\n            \"Length needs to be correct for ThinArc to work\"\n        );\n        // Safety: invariant checked in assertion above")])
+mutant("protected_length_mut", ["C10"], [("src/header.rs", "    pub fn length(&self) -> usize {\n        self.inner.header.length\n    }", "    pub fn length(&self) -> usize {\n        self.inner.header.length\n    }\n    pub fn header_and_length_mut(&mut self) -> &mut HeaderWithLength<H> {\n        &mut self.inner.header\n    }")])
+mutant("protected_inner_mut", ["C10"], [("src/header.rs", "    pub(crate) fn inner(&self) -> &HeaderSliceWithLengthUnchecked<H, T> {", "    pub fn inner_mut(&mut self) -> &mut HeaderSliceWithLengthUnchecked<H, T> {\n        &mut self.inner\n    }\n    pub(crate) fn inner(&self) -> &HeaderSliceWithLengthUnchecked<H, T> {")])
+mutant("thin_to_thick_wrong_length_source", ["C10"], [("src/thin_arc.rs", "    let len = unsafe { (*thin).data.header.length };", "    let len = unsafe { (*thin).data.header.length.min(core::mem::size_of::<H>()) };")])
+mutant("safe_from_unprotected", ["C10"], [("src/thin_arc.rs", "    unsafe fn from_unprotected_unchecked(a: Arc<HeaderSliceWithLengthUnchecked<H, T>>) -> Self {", "    pub fn from_unprotected(a: Arc<HeaderSliceWithLengthUnchecked<H, T>>) -> Self {\n        unsafe { Self::from_unprotected_unchecked(a) }\n    }\n\n    unsafe fn from_unprotected_unchecked(a: Arc<HeaderSliceWithLengthUnchecked<H, T>>) -> Self {")])
+mutant("protected_deref_mut", ["C10"], [("src/header.rs", "impl<H: PartialOrd, T: ?Sized + PartialOrd> PartialOrd for HeaderSlice<HeaderWithLength<H>, T> {", "impl<H, T> core::ops::Deref for HeaderSliceWithLengthProtected<H, T> {\n    type Target = HeaderSliceWithLengthUnchecked<H, T>;\n    fn deref(&self) -> &Self::Target { &self.inner }\n}\nimpl<H, T> core::ops::DerefMut for HeaderSliceWithLengthProtected<H, T> {\n    fn deref_mut(&mut self) -> &mut Self::Target { &mut self.inner }\n}\n\nimpl<H: PartialOrd, T: ?Sized + PartialOrd> PartialOrd for HeaderSlice<HeaderWithLength<H>, T> {")])
+mutant("from_thin_clones", ["C10", "C04", "C01"], [("src/thin_arc.rs", "        Self::from_protected(Arc::<HeaderSliceWithLengthProtected<H, T>>::protected_from_thin(a))", "        let t = a.clone();\n        core::mem::forget(a);\n        Self::from_protected(Arc::<HeaderSliceWithLengthProtected<H, T>>::protected_from_thin(t))")])
+benign("into_thin_if_panic_form", [("src/thin_arc.rs", "        assert_eq!(\n            a.header.length,\n            a.slice.len(),\n            \"Length needs to be correct for ThinArc to work\"\n        );\n        // Safety: invariant checked in assertion above", "        if a.header.length != a.slice.len() {\n            panic!(\"Length needs to be correct for ThinArc to work\");\n        }\n        // Safety: invariant checked in assertion above")])
